@@ -126,6 +126,8 @@ func c17CrashHalf(ctx *core.Ctx) error {
 			}
 		}
 	}
+	// "what a key reads as never changes merely because a restart happened", at the numeric boundary of the WAL file names
+	cases = append(cases, core.J(c17Case{Crash: &c02Case{Name: "c17-wal-size-rotation-after-nine-rotations", Mode: "sync", Sess: walNumbersSession(false), Tail: true}}))
 	// I/O failure as the reason for the error: the k-th WAL system call of the client fails (EIO); the failing call
 	// must leave no trace - observed in process (Get after the failed call) and after recovery of the final image
 	nio := 0
